@@ -10,7 +10,7 @@ pub mod tree;
 use crate::util::*;
 use oxidize_pdf::document::{DocumentEncryption, EncryptionStrength};
 use oxidize_pdf::encryption::Permissions;
-use oxidize_pdf::forms::{FormManager, TextField, Widget, WidgetAppearance};
+use oxidize_pdf::forms::{ComboBox, FormManager, TextField, Widget, WidgetAppearance};
 use oxidize_pdf::geometry::{Point, Rectangle};
 use oxidize_pdf::parser::PdfReader;
 use oxidize_pdf::writer::WriterConfig;
@@ -113,6 +113,18 @@ pub fn build_doc(spec: &Spec, encrypt: bool) -> Option<Document> {
             page.add_form_widget_with_ref(widget, fr).ok()?;
             any_field = true;
             y -= 30.0;
+        }
+        let opts = strs(&p["combo"]);
+        if !opts.is_empty() {
+            let rect = Rectangle::new(Point::new(100.0, y), Point::new(300.0, y + 20.0));
+            let widget = Widget::new(rect).with_appearance(WidgetAppearance::default());
+            let mut cb = ComboBox::new("combo");
+            for (i, o) in opts.iter().enumerate() {
+                cb = cb.add_option(format!("e{}", i), o.clone());
+            }
+            let fr = fm.add_combo_box(cb, widget.clone(), None).ok()?;
+            page.add_form_widget_with_ref(widget, fr).ok()?;
+            any_field = true;
         }
         doc.add_page(page);
     }
@@ -225,7 +237,8 @@ fn sample_doc(rng: &mut Rng, small: bool) -> Value {
         let annots: Vec<Vec<String>> = (0..na).map(|_| vec![pick(rng), pick(rng)]).collect();
         let nf = if rng.chance(1, 2) { rng.range(1, 2) } else { 0 };
         let fields: Vec<String> = (0..nf).map(|i| format!("f{}", i)).collect();
-        pages.push(json!({"text": text, "annots": annots, "fields": fields}));
+        let combo: Vec<String> = if rng.chance(1, 2) { vec![pick(rng), "second option".to_string()] } else { vec![] };
+        pages.push(json!({"text": text, "annots": annots, "fields": fields, "combo": combo}));
     }
     json!({"title": pick(rng), "author": pick(rng), "subject": if rng.chance(1,2) { json!(pick(rng)) } else { Value::Null }, "keywords": Value::Null, "pages": pages})
 }
